@@ -108,10 +108,19 @@ func (i *interpreter) fmtValue(fr *frame, v value, t types.Type, verb byte, dept
 		}
 		return x
 	case bool, symBool:
+		if verb == 's' || verb == 'd' || verb == 'q' {
+			return i.concatV(i.concatV("%!"+string(verb)+"(bool=", i.fmtBool(x)), ")")
+		}
 		return i.fmtBool(x)
 	case symInt:
+		if verb == 's' {
+			return i.concatV(i.concatV("%!s("+typeString(t)+"=", i.fmtInt(x)), ")")
+		}
 		return i.fmtInt(x)
 	case int, int8, int16, int32, int64, uint, uint8, uint16, uint32, uint64, uintptr:
+		if verb == 's' {
+			return fmt.Sprintf("%s", x)
+		}
 		if verb == 'q' {
 			return strconv.QuoteRune(rune(asInt64(x)))
 		}
@@ -126,8 +135,14 @@ func (i *interpreter) fmtValue(fr *frame, v value, t types.Type, verb byte, dept
 		if verb == 'f' {
 			return strconv.FormatFloat(x, 'f', 6, 64)
 		}
+		if verb == 's' || verb == 'd' || verb == 'q' {
+			return fmt.Sprintf("%"+string(verb), x)
+		}
 		return fmt.Sprint(x)
 	case float32:
+		if verb == 's' || verb == 'd' || verb == 'q' {
+			return fmt.Sprintf("%"+string(verb), x)
+		}
 		return fmt.Sprint(x)
 	case nil:
 		if t != nil {
